@@ -301,7 +301,7 @@ func main() {
 			for v := range out {
 				r := rand.New(rand.NewSource(verifkit.Seed()*1000003 + caseKey(raw) + int64(v)))
 				_, privA := newKey(r)
-				params := pow.Parameters{GetSubject: subjectFn(v), Expires: []time.Duration{10 * time.Second, time.Minute, time.Hour}[v%3], Difficulty: c.D}
+				params := pow.Parameters{GetSubject: subjectFn(v), Expires: []time.Duration{10 * time.Minute, time.Hour, 24 * time.Hour}[v%3], Difficulty: c.D}
 				var o vobs
 				if p := verifkit.Recover(func() {
 					proof, err := pow.GenerateSolution(privA, params)
